@@ -8,7 +8,7 @@ LEVEL_TEXT = (
     "starts in allowed_start / ends in allowed_end when given, ends differ when endpoints_not_equal and by default. generate_random_path itself is verified against its real body for all "
     "four metadata shapes the generators produce (candidate sets, dead-end filter through the neighbour-count contract, the option-free branch draws two distinct cells), given that the "
     "metadata tells the truth (C12, proved for every generator); get_connected_component (mutually reachable, distinct, in-grid cells) and SolvedMaze.__init__ (solution stored, start/end = "
-    "its ends, both inside the grid, ValueError otherwise) are verified against their real bodies; the solver closure (find_shortest_path, neighbours, heuristic) is re-proved here. "
+    "its ends, both inside the grid, ValueError otherwise) and SolvedMaze.from_lattice_maze (the call the item helper ends with: connection structure kept, solution stored) are verified against their real bodies; the solver closure (find_shortest_path, neighbours, heuristic) is re-proved here. "
     "NOT proved: the dead-end clauses are proved on generate_random_path itself, not repeated at item level; the dataset length, "
     "worker-pool scheduling and MazeDataset.generate itself (multiprocessing, muutils config copy) - decided by the bounded stand-in: run-time checking of the real generate pipeline "
     "(serial and parallel pool sizes, all generators, option combinations) against the item contract."
@@ -22,7 +22,7 @@ F = "maze_dataset/maze/lattice_maze.py"
 L = "/verif/contracts/lemmas_src.py"
 PROVE = [
     (F, "LatticeMaze.heuristic"), (F, "LatticeMaze.nodes_connected"), (F, "LatticeMaze.get_coord_neighbors"), (F, "LatticeMaze.find_shortest_path"),
-    (F, "LatticeMaze.get_connected_component"), (F, "LatticeMaze.generate_random_path"), (F, "SolvedMaze.__init__"),
+    (F, "LatticeMaze.get_connected_component"), (F, "LatticeMaze.generate_random_path"), (F, "SolvedMaze.__init__"), (F, "SolvedMaze.from_lattice_maze"),
     (L, "item_dfs"), (L, "item_wilson"), (L, "item_prim"), (L, "item_percolation"), (L, "item_dfs_percolation"),
 ]
 ASSUMPTIONS = ["grid at least 2x2 (generate_random_path asserts it)", "the generator contracts used by the item lemmas are proved under C01/C12"]
